@@ -1775,6 +1775,26 @@ def subst_single_use(stmts):
     return stmts
 
 
+def _loop_level_jump(body) -> bool:
+    """a break / continue that belongs to the loop whose body this is"""
+    def walk(stmts):
+        for s_ in stmts:
+            if isinstance(s_, (ast.Break, ast.Continue)):
+                return True
+            if isinstance(s_, (ast.For, ast.While, ast.FunctionDef, ast.AsyncFunctionDef, ast.ClassDef)):
+                if isinstance(s_, (ast.For, ast.While)) and walk(s_.orelse):
+                    return True
+                continue
+            for fld in ("body", "orelse", "finalbody"):
+                bb = getattr(s_, fld, None)
+                if isinstance(bb, list) and bb and isinstance(bb[0], ast.stmt) and walk(bb):
+                    return True
+            if isinstance(s_, ast.Try) and any(walk(h.body) for h in s_.handlers):
+                return True
+        return False
+    return walk(body)
+
+
 def _reads_at_top(s, name) -> bool:
     """name is read in the header expression of s (not inside a nested block, comprehension element or lambda)"""
     if isinstance(s, (ast.If, ast.While)):
@@ -2204,7 +2224,9 @@ class Canon:
                 vals = dict(zip(params, call.args))
                 vals.update({k.arg: k.value for k in call.keywords if k.arg in params})
                 if set(vals) != set(params):
-                    continue
+                    vals = None if is_nt else self._record_fields(call, module, getattr(self, "_cur_cls", None))       # (defaults filled in)
+                    if vals is None:
+                        continue
             elif not c.is_dataclass and "__init__" in c.methods and not [b_ for b_ in c.node.bases if u(b_) not in ("object",)]:
                 # a plain class whose constructor only files its arguments: self.f = param
                 init = c.methods["__init__"]
@@ -2223,7 +2245,20 @@ class Canon:
             else:
                 continue
             if not all(norm.is_pure(v, _PURE_EXT) for v in vals.values()):
-                continue
+                # a part computed by a call that only computes (hv/effects.py) may be written where it is read, if it is read once
+                # and nothing from here on changes what it reads
+                eff = self.effects()
+                names_ = {n.id for b_ in stmts for n in ast.walk(b_) if isinstance(n, ast.Name)}
+                roots_ = eff.bind_roots(stmts[i + 1:], {n_: {n_} for n_ in names_})
+                w_ = eff.stmts_effects(stmts[i + 1:], roots_, getattr(self, "_cur_cls", None), module)
+                fine = w_ is not None
+                for f_, v in vals.items():
+                    if fine and not norm.is_pure(v, _PURE_EXT):
+                        e_ = eff.expr_effects(v, roots_, getattr(self, "_cur_cls", None), module)
+                        nread = sum(1 for b_ in stmts[i + 1:] for n in ast.walk(b_) if isinstance(n, ast.Attribute) and isinstance(n.value, ast.Name) and n.value.id == x and n.attr == f_)
+                        fine = e_ is not None and not e_ and nread <= 1 and not (w_ & eff.reads(v, roots_))
+                if not fine:
+                    continue
             if sum(1 for b_ in stmts for n in ast.walk(b_) if isinstance(n, ast.Name) and n.id == x and not isinstance(n.ctx, ast.Load)) != 1:
                 continue
             ok = [True]
@@ -3406,6 +3441,335 @@ class Canon:
                 out[f.name] = u(f.default)
         return out
 
+    def _record_fields(self, call, module, cls=None):
+        """{field: value} for a construction of a private dataclass of the module that the tables do not know (defaults filled in; at most
+        one value that is not pure), else None"""
+        known = known_defs()
+        if not (isinstance(call, ast.Call) and isinstance(call.func, ast.Name)):
+            return None
+        c = module.classes.get(call.func.id)
+        if c is None or not call.func.id.startswith("_") or f"class:{call.func.id}" in known or not c.is_dataclass \
+                or any(n_ in c.methods for n_ in ("__init__", "__post_init__", "__new__", "__getattr__", "__setattr__", "__getattribute__")) \
+                or any(isinstance(a, ast.Starred) for a in call.args) or any(k.arg is None for k in call.keywords):
+            return None
+        fields = [f for f in c.all_fields() if f.init and not f.classvar]
+        params = [f.name for f in fields]
+        if len(call.args) > len(params) or any(k.arg not in params for k in call.keywords):
+            return None
+        vals = dict(zip(params, call.args))
+        vals.update({k.arg: k.value for k in call.keywords})
+        for f in fields:
+            if f.name in vals:
+                continue
+            if f.default_factory is not None and u(f.default_factory) in ("list", "dict", "set"):
+                vals[f.name] = ast.parse({"list": "[]", "dict": "{}", "set": "set()"}[u(f.default_factory)], mode="eval").body
+            elif isinstance(f.default, ast.Constant) or (isinstance(f.default, ast.Tuple) and all(isinstance(e_, ast.Constant) for e_ in f.default.elts)):
+                vals[f.name] = copy.deepcopy(f.default)
+            else:
+                return None
+        # (one part may be computed by a call: with everything else pure, where in the tail it is evaluated makes no difference)
+        def computes_only(v):
+            if norm.is_pure(v, _PURE_EXT):
+                return True
+            names = {n.id for n in ast.walk(v) if isinstance(n, ast.Name)}
+            e_ = self.effects().expr_effects(v, {n_: {n_} for n_ in names}, cls, module)
+            return e_ is not None and not e_
+        if sum(1 for v in vals.values() if not computes_only(v)) > 1:
+            return None
+        return vals
+
+
+    def effects(self):
+        if getattr(self, "_effects", None) is None:
+            from .effects import Effects
+            self._effects = Effects(self.prog)
+        return self._effects
+
+    def fuse_eager_loops(self, stmts, module, cls, fn):
+        """for x in [E(c) for c in X]: BODY     (also  (*(E(c) for c in X),)  /  tuple(..) / list(..))
+              ->   for c in X: x = E(c); BODY
+        when building the values changes nothing (hv/effects.py: E only computes) and BODY changes nothing E or X read: each value is
+        then the same whether it is built before the loop starts or when its turn comes"""
+        if not any(isinstance(n, ast.For) for s_ in stmts for n in ast.walk(s_)):
+            return stmts
+        eff = self.effects()
+        params = [a.arg for a in fn.args.posonlyargs + fn.args.args + fn.args.kwonlyargs] if fn is not None else []
+        roots = eff.bind_roots(stmts, {p_: {p_} for p_ in params}, own=True)
+        counter = [0]
+
+        def eager(it):
+            g = None
+            if isinstance(it, ast.ListComp):
+                g = it
+            elif isinstance(it, (ast.Tuple, ast.List)) and len(it.elts) == 1 and isinstance(it.elts[0], ast.Starred) and isinstance(it.elts[0].value, (ast.GeneratorExp, ast.ListComp)):
+                g = it.elts[0].value
+            elif isinstance(it, ast.Call) and isinstance(it.func, ast.Name) and it.func.id in ("tuple", "list") and len(it.args) == 1 and not it.keywords \
+                    and isinstance(it.args[0], (ast.GeneratorExp, ast.ListComp)):
+                g = it.args[0]
+            if g is None or len(g.generators) != 1 or g.generators[0].is_async:
+                return None
+            return g
+
+        def block(b):
+            out = []
+            for s_ in b:
+                for fld in ("body", "orelse", "finalbody"):
+                    bb = getattr(s_, fld, None)
+                    if isinstance(bb, list) and bb and isinstance(bb[0], ast.stmt) and not isinstance(s_, (ast.FunctionDef, ast.AsyncFunctionDef, ast.ClassDef)):
+                        setattr(s_, fld, block(bb))
+                if isinstance(s_, ast.Try):
+                    for h in s_.handlers:
+                        h.body = block(h.body)
+                g = eager(s_.iter) if isinstance(s_, ast.For) else None
+                if g is not None and not norm.is_pure(g.elt, _PURE_EXT):       # (pure elements are fused elsewhere)
+                    gen = g.generators[0]
+                    inner = dict(roots)
+                    for t in ast.walk(gen.target):
+                        if isinstance(t, ast.Name):
+                            inner[t.id] = eff.roots_of(gen.iter, roots) | {t.id}
+                    built = [g.elt, *gen.ifs]
+                    e_elt = [eff.expr_effects(x, inner, cls, module) for x in [*built, gen.iter]]
+                    w_body = eff.stmts_effects(s_.body, roots, cls, module)
+                    rd = set().union(*[eff.reads(x, inner) for x in [*built, gen.iter]])
+                    tnames = {n.id for n in ast.walk(gen.target) if isinstance(n, ast.Name)}
+                    used = {n.id for x in s_.body for n in ast.walk(x) if isinstance(n, ast.Name)} | {n.id for n in ast.walk(s_.target) if isinstance(n, ast.Name)}
+                    if all(e_ is not None and not e_ for e_ in e_elt) and w_body is not None and not (w_body & rd) \
+                            and not (norm._assigned_names(s_.body) & {n.id for x in [*built, gen.iter] for n in ast.walk(x) if isinstance(n, ast.Name)}) \
+                            and not _loop_level_jump(s_.body):
+                        ren = {}
+                        for t in sorted(tnames):
+                            if t in used:
+                                counter[0] += 1
+                                ren[t] = f"{t}_e{counter[0]}"
+                        tgt, elt, ifs = copy.deepcopy(gen.target), copy.deepcopy(g.elt), [copy.deepcopy(x) for x in gen.ifs]
+                        if ren:
+                            tgt = norm._Rename(ren).visit(tgt)
+                            elt = norm._Rename(ren).visit(elt)
+                            ifs = [norm._Rename(ren).visit(x) for x in ifs]
+                        body = [ast.Assign(targets=[copy.deepcopy(s_.target)], value=elt), *s_.body]
+                        for c_ in reversed(ifs):
+                            body = [ast.If(test=c_, body=body, orelse=[])]
+                        new = ast.For(target=tgt, iter=copy.deepcopy(gen.iter), body=body, orelse=s_.orelse, type_comment=None)
+                        out.append(ast.fix_missing_locations(ast.copy_location(new, s_)))
+                        continue
+                out.append(s_)
+            return out
+        return block(list(stmts))
+
+    def fuse_producer_consumer(self, stmts, module, cls, fn):
+        """L = []                                           for T in X:
+           for T in X: P; L.append(E)             ->            P; x = E; BODY
+           for x in L: BODY
+        when L is used nowhere else, the producing statements only compute (hv/effects.py) and BODY changes nothing they read: each
+        element is then the same whether it is built in a first pass or when its turn comes"""
+        eff = self.effects()
+        params = [a.arg for a in fn.args.posonlyargs + fn.args.args + fn.args.kwonlyargs] if fn is not None else []
+
+        def block(b):
+            b = list(b)
+            for s_ in b:
+                for fld in ("body", "orelse", "finalbody"):
+                    bb = getattr(s_, fld, None)
+                    if isinstance(bb, list) and bb and isinstance(bb[0], ast.stmt) and not isinstance(s_, (ast.FunctionDef, ast.AsyncFunctionDef, ast.ClassDef)):
+                        setattr(s_, fld, block(bb))
+            i = 0
+            while i + 1 < len(b):
+                p_, c_ = b[i], b[i + 1]
+                if isinstance(p_, ast.For) and isinstance(c_, ast.For) and not p_.orelse and not c_.orelse and isinstance(c_.iter, ast.Name) and p_.body \
+                        and isinstance(p_.body[-1], ast.Expr) and isinstance(p_.body[-1].value, ast.Call) and u(p_.body[-1].value.func) == f"{c_.iter.id}.append" \
+                        and len(p_.body[-1].value.args) == 1 and not p_.body[-1].value.keywords:
+                    L = c_.iter.id
+                    init = [j for j, x in enumerate(b[:i]) if isinstance(x, ast.Assign) and len(x.targets) == 1 and u(x.targets[0]) == L and u(x.value) == "[]"]
+                    uses = sum(1 for x in stmts for n in ast.walk(x) if isinstance(n, ast.Name) and n.id == L)
+                    prod, elt = p_.body[:-1], p_.body[-1].value.args[0]
+                    roots = eff.bind_roots(stmts, {q: {q} for q in params}, own=True)
+                    w_prod = eff.stmts_effects(prod, roots, cls, module) if prod else set()
+                    e_elt = eff.expr_effects(elt, roots, cls, module)
+                    e_it = eff.expr_effects(p_.iter, roots, cls, module)
+                    w_body = eff.stmts_effects(c_.body, roots, cls, module)
+                    plocals = norm._assigned_names(prod) | {n.id for n in ast.walk(p_.target) if isinstance(n, ast.Name)}
+                    rd = set().union(*[eff.reads(x, roots) for x in [*prod, elt, p_.iter]]) if True else set()
+                    cnames = {n.id for x in c_.body for n in ast.walk(x) if isinstance(n, ast.Name)} | {n.id for n in ast.walk(c_.target) if isinstance(n, ast.Name)}
+                    # the producer's locals hold fresh values (their own roots): only what they share with the outside matters
+                    rd_outside = {r for r in rd if r not in plocals}
+                    import os
+                    if os.environ.get("HV_FUSE_DEBUG"):
+                        print("FUSE", L, len(init), uses, w_prod, plocals, e_elt, e_it, w_body, rd_outside, plocals & cnames, _loop_level_jump(prod), _loop_level_jump(c_.body))
+                    if len(init) == 1 and uses == 3 and w_prod is not None and not (w_prod - plocals) and e_elt is not None and not e_elt and e_it is not None and not e_it \
+                            and w_body is not None and not (w_body & rd_outside) and not (plocals & cnames) and not _loop_level_jump(prod) and not _loop_level_jump(c_.body) \
+                            and not (norm._assigned_names(c_.body) & {n.id for x in [*prod, elt, p_.iter] for n in ast.walk(x) if isinstance(n, ast.Name)}):
+                        new = ast.For(target=p_.target, iter=p_.iter, body=[*prod, ast.Assign(targets=[c_.target], value=elt), *c_.body], orelse=[], type_comment=None)
+                        ast.fix_missing_locations(ast.copy_location(new, p_))
+                        b[i:i + 2] = [new]
+                        del b[init[0]]
+                        i -= 1
+                        continue
+                i += 1
+            return b
+        return block(stmts)
+
+    def fold_own_bodies(self, stmts, module, cls, fn, early=False):
+        """self._b(self._a(X, Y), Z)  where a method m of the class is defined as exactly `self._b(self._a(p, q), r)` (in its parameters)
+        and _a, _b are private helpers the tables do not know: the call is m(X, Y, Z) -- the way back from a method that was split in
+        two halves to the one call the split left in its place"""
+        if cls is None:
+            return stmts
+        known = known_defs()
+        pats = []
+        for k_ in cls.mro:
+            for name, m in k_.methods.items():
+                if m.decorator_list or not m.args.args or m.args.vararg or m.args.kwarg or m.args.kwonlyargs:
+                    continue
+                rb = real_body(m)
+                if len(rb) != 1 or not isinstance(rb[0], (ast.Expr, ast.Return)) or not isinstance(rb[0].value, ast.Call):
+                    continue
+                e = rb[0].value
+                sn = m.args.args[0].arg
+                ps = [a.arg for a in m.args.args[1:]]
+                # an outer call of an unknown private helper of self with an inner one among its arguments; every parameter used once
+                f = e.func
+                if not (isinstance(f, ast.Attribute) and isinstance(f.value, ast.Name) and f.value.id == sn and self.unknown_helper(k_, f.attr)):
+                    continue
+                inner = [a for a in e.args if isinstance(a, ast.Call) and isinstance(a.func, ast.Attribute) and isinstance(a.func.value, ast.Name)
+                         and a.func.value.id == sn and self.unknown_helper(k_, a.func.attr)]
+                if len(inner) != 1 or e.keywords or inner[0].keywords:
+                    continue
+                names = [n.id for n in ast.walk(e) if isinstance(n, ast.Name) and n.id != sn]
+                if sorted(names) != sorted(ps) or not all(isinstance(a, ast.Name) or a is inner[0] for a in e.args) or not all(isinstance(a, ast.Name) for a in inner[0].args):
+                    continue
+                if cls.find_method(name)[1] is not m:
+                    continue
+                if early and fn is not None and m is fn:
+                    continue            # (the method's own definition is not a call of itself; calls its halves make later on are)
+                pats.append((name, sn, ps, e, inner[0]))
+        if not pats:
+            return stmts
+
+        class F(ast.NodeTransformer):
+            def visit_Call(self, node):
+                self.generic_visit(node)
+                for name, sn, ps, e, inner in pats:
+                    if fn is not None and False:
+                        continue
+                    f = node.func
+                    if not (isinstance(f, ast.Attribute) and isinstance(f.value, ast.Name) and f.value.id == "self" and f.attr == e.func.attr
+                            and len(node.args) == len(e.args) and not node.keywords):
+                        continue
+                    bind = {}
+                    ok = True
+                    for a_pat, a_act in zip(e.args, node.args):
+                        if a_pat is inner:
+                            if not (isinstance(a_act, ast.Call) and isinstance(a_act.func, ast.Attribute) and isinstance(a_act.func.value, ast.Name)
+                                    and a_act.func.value.id == "self" and a_act.func.attr == inner.func.attr and len(a_act.args) == len(inner.args) and not a_act.keywords):
+                                ok = False
+                                break
+                            for p2, a2 in zip(inner.args, a_act.args):
+                                bind[p2.id] = a2
+                        else:
+                            bind[a_pat.id] = a_act
+                    if ok and set(bind) == set(ps):
+                        return ast.copy_location(ast.Call(func=ast.Attribute(value=ast.Name(id="self", ctx=ast.Load()), attr=name, ctx=ast.Load()),
+                                                          args=[bind[p_] for p_ in ps], keywords=[]), node)
+                return node
+        return [ast.fix_missing_locations(F().visit(s_)) for s_ in stmts]
+
+    def thread_record_flags(self, stmts, module, cls=None):
+        """if C: ..; v = _Rec(.., f=<certainly non-empty here>)  else: ..; v = _Rec(..)          if C: ..; v = _Rec(..); A
+           if v.f: A  else: B                                                             ->    else: ..; v = _Rec(..); B
+        a decision recorded in whether a field of a private record is empty and asked again straight afterwards is the decision itself
+        (as norm.thread_none_flags does for `v is None`): each arm of the second test moves to the branches that make it true"""
+        fresh = [0]
+        eff = self.effects()
+        names = {n.id for s_ in stmts for n in ast.walk(s_) if isinstance(n, ast.Name)}
+        own = {n_: {n_} for n_ in names}
+
+        def stable(t, blk):
+            """asking t again after blk gives the same answer: t only computes, and blk changes nothing"""
+            if norm.is_pure(t, _PURE_EXT):
+                return True
+            et = eff.expr_effects(t, own, cls, module)
+            eb = eff.stmts_effects(blk, own, cls, module)
+            return et is not None and not et and eb is not None and not eb
+
+        def truth(e, facts):
+            """True / False / None: the truth value of e given the (text -> bool) facts the enclosing tests established"""
+            if isinstance(e, ast.Constant):
+                return bool(e.value)
+            if isinstance(e, (ast.Tuple, ast.List, ast.Set)):
+                if not e.elts:
+                    return False
+                ts = [True if not isinstance(x, ast.Starred) else truth(x.value, facts) for x in e.elts]
+                if any(t is True for t in ts):
+                    return True
+                return False if all(t is False for t in ts) else None
+            if isinstance(e, (ast.GeneratorExp, ast.ListComp, ast.SetComp)) and len(e.generators) == 1 and not e.generators[0].ifs:
+                return truth(e.generators[0].iter, facts)        # as many elements as the iterable has
+            if isinstance(e, ast.Call) and isinstance(e.func, ast.Name) and e.func.id in ("tuple", "list", "set", "frozenset", "sorted") and len(e.args) == 1 and not e.keywords:
+                return truth(e.args[0], facts)
+            if u(e) in facts:
+                return facts[u(e)]
+            return None
+
+        def leaves(block, v, facts):
+            """[(leaf block, facts there)] for the ways the block falls through with v assigned last in that leaf; None if unknown"""
+            if _terminates(block):
+                return []
+            if not block:
+                return None
+            last = block[-1]
+            if isinstance(last, ast.If) and last.orelse and v in norm._assigned_names([last]):
+                t, neg = last.test, False
+                while isinstance(t, ast.UnaryOp) and isinstance(t.op, ast.Not):
+                    t, neg = t.operand, not neg
+                fa, fb = dict(facts), dict(facts)
+                if stable(t, last.body) and stable(t, last.orelse) \
+                        and not (norm._assigned_names(last.body) | norm._assigned_names(last.orelse)) & {n.id for n in ast.walk(t) if isinstance(n, ast.Name)}:
+                    fa[u(t)], fb[u(t)] = (not neg), neg
+                a, b = leaves(last.body, v, fa), leaves(last.orelse, v, fb)
+                return None if a is None or b is None else a + b
+            if isinstance(last, ast.Assign) and len(last.targets) == 1 and isinstance(last.targets[0], ast.Name) and last.targets[0].id == v:
+                return [(block, facts)]
+            return None
+
+        def block(b):
+            b = list(b)
+            for s_ in b:
+                for fld in ("body", "orelse", "finalbody"):
+                    bb = getattr(s_, fld, None)
+                    if isinstance(bb, list) and bb and isinstance(bb[0], ast.stmt) and not isinstance(s_, (ast.FunctionDef, ast.AsyncFunctionDef, ast.ClassDef)):
+                        setattr(s_, fld, block(bb))
+            i = 0
+            while i + 1 < len(b):
+                s1, s2 = b[i], b[i + 1]
+                if isinstance(s1, ast.If) and s1.orelse and isinstance(s2, ast.If):
+                    t, neg = s2.test, False
+                    while isinstance(t, ast.UnaryOp) and isinstance(t.op, ast.Not):
+                        t, neg = t.operand, not neg
+                    if isinstance(t, ast.Attribute) and isinstance(t.value, ast.Name):
+                        v, f_ = t.value.id, t.attr
+                        lv = leaves([s1], v, {})
+                        decided = []
+                        for blk, facts in (lv or []):
+                            vals = self._record_fields(blk[-1].value, module, cls)
+                            tv = truth(vals[f_], facts) if vals is not None and f_ in vals else None
+                            decided.append(tv)
+                        if lv and all(d is not None for d in decided) and len(set(decided)) == 2:
+                            inside = sum(1 for n in ast.walk(s2) if isinstance(n, ast.Name) and n.id == v and isinstance(n.ctx, ast.Load))
+                            total = sum(1 for x in stmts for n in ast.walk(x) if isinstance(n, ast.Name) and n.id == v and isinstance(n.ctx, ast.Load))
+                            for (blk, _), tv in zip(lv, decided):
+                                arm = [copy.deepcopy(x) for x in (s2.body if tv != neg else s2.orelse)]
+                                if inside == total and not any(v in norm._assigned_names([x]) for x in arm):
+                                    fresh[0] += 1
+                                    nm = f"{v}__{fresh[0]}"
+                                    blk[-1].targets[0] = ast.Name(id=nm, ctx=ast.Store())
+                                    arm = [norm._Rename({v: nm}).visit(x) for x in arm]
+                                blk.extend(arm)
+                            del b[i + 1]
+                            continue
+                i += 1
+            return b
+        return block(stmts)
+
     def sink_record_tail(self, stmts, module):
         """if ..: ..; x = _Rec(a, b)  elif ..: ..; x = _Rec(c)  ..        if ..: ..; return F(a, b, <default>)  elif ..: ..; return F(c, ..)
            return F(x.p, x.q, x.r)                                  ->
@@ -3414,32 +3778,7 @@ class Canon:
         known = known_defs()
 
         def helper_fields(call):
-            if not (isinstance(call, ast.Call) and isinstance(call.func, ast.Name)):
-                return None
-            c = module.classes.get(call.func.id)
-            if c is None or not call.func.id.startswith("_") or f"class:{call.func.id}" in known or not c.is_dataclass \
-                    or any(n_ in c.methods for n_ in ("__init__", "__post_init__", "__new__", "__getattr__", "__setattr__", "__getattribute__")) \
-                    or any(isinstance(a, ast.Starred) for a in call.args) or any(k.arg is None for k in call.keywords):
-                return None
-            fields = [f for f in c.all_fields() if f.init and not f.classvar]
-            params = [f.name for f in fields]
-            if len(call.args) > len(params) or any(k.arg not in params for k in call.keywords):
-                return None
-            vals = dict(zip(params, call.args))
-            vals.update({k.arg: k.value for k in call.keywords})
-            for f in fields:
-                if f.name in vals:
-                    continue
-                if f.default_factory is not None and u(f.default_factory) in ("list", "dict", "set"):
-                    vals[f.name] = ast.parse({"list": "[]", "dict": "{}", "set": "set()"}[u(f.default_factory)], mode="eval").body
-                elif isinstance(f.default, ast.Constant):
-                    vals[f.name] = copy.deepcopy(f.default)
-                else:
-                    return None
-            # (one part may be computed by a call: with everything else pure, where in the tail it is evaluated makes no difference)
-            if sum(1 for v in vals.values() if not norm.is_pure(v, _PURE_EXT)) > 1:
-                return None
-            return vals
+            return self._record_fields(call, module)
 
         class Fold(ast.NodeTransformer):
             def visit_IfExp(self, node):
@@ -3564,6 +3903,7 @@ class Canon:
         key = (id(fn), id(cls), tuple(sorted(inline)), tuple(sorted(keep)), subst, accessors, supers)
         if key in self.cache and fn.name != "_module_level_":       # (synthetic functions are short-lived: their id can be reused)
             return self.cache[key]
+        self._cur_cls = cls
         b = [copy.deepcopy(s) for s in real_body(fn)]
         b = strip_annotations(b)
         b = norm.rename_param_rebinds(b)
@@ -3586,6 +3926,7 @@ class Canon:
         b = norm.lower_reduce(b)
         b = self.explicit_base_init(b, module, cls)
         b = self.helper_object_views(b, module, cls)
+        b = self.fold_own_bodies(b, module, cls, fn, early=True)
         look = self._lookup(module, cls, fn, set(inline), set(keep), accessors, supers)
         from .genloop import inline_generator_loops, inline_guard_helpers
         b = inline_generator_loops(b, look)       # loops over unknown generator helpers: the helper's loop with the body at its yield
@@ -3620,6 +3961,7 @@ class Canon:
         b = self.expand_replace(b, module)
         b = self.sroa_value_records(b, module)
         b = norm.thread_none_flags(b)           # a decision recorded in `v is None` and asked again straight afterwards
+        b = self.thread_record_flags(b, module, cls)
         b = lift_ifexp(self._project_helper_objects(b, module))      # (a record filed in each branch, read by the arm that was moved there)
         b = norm.fold_none_tests(b)             # `if count is not None` on a count a helper just computed
         b = self.thread_sentinels(b, module)
@@ -3660,6 +4002,24 @@ class Canon:
                 b = _drop_dead_temps(norm.forward_subst(b2, pure_calls=_PURE_EXT))
         if subst:
             b = _drop_dead_temps(b)
+        # records built in every branch and taken apart by a second pass over them (a method split into "describe" and "emit"): judged
+        # on the substituted body in both modes (the summaries substitute anyway)
+        if any(isinstance(n, ast.Call) and isinstance(n.func, ast.Name) and n.func.id.startswith("_") and n.func.id in module.classes
+               and f"class:{n.func.id}" not in known_defs() for s_ in b for n in ast.walk(s_)):
+            if subst:
+                b0 = b
+            else:
+                b0 = _drop_dead_temps(norm.forward_subst([copy.deepcopy(x) for x in b], pure_calls=_PURE_EXT))
+                b0 = _drop_dead_temps(norm.forward_subst(subst_single_use(norm.split_parallel_assign(b0)), pure_calls=_PURE_EXT))
+                b0 = expr_norm(norm.normalise_loops(b0))
+            b4 = self.thread_record_flags([copy.deepcopy(x) for x in b0], module, cls)
+            b4 = self.fuse_producer_consumer(b4, module, cls, fn)
+            if ast.dump(ast.Module(body=b4, type_ignores=[])) != ast.dump(ast.Module(body=b0, type_ignores=[])):
+                b4 = lift_ifexp(self._project_helper_objects(b4, module))
+                b4 = self._project_nested(b4, module)
+                b4 = self.fuse_eager_loops(b4, module, cls, fn)
+                b = _drop_dead_temps(norm.forward_subst(subst_single_use(b4), pure_calls=_PURE_EXT))
+        b = self.fold_own_bodies(b, module, cls, fn)
         b = polarity(expr_norm(b))          # (expression idioms may have produced `not all(..)` tests)
         for s in b:
             ast.fix_missing_locations(s)
